@@ -189,6 +189,15 @@ def conc(field, value):
     return f
 
 
+def resize_lost(evs):
+    """the library ends up with another size than the terminal's"""
+    for e in evs:
+        if e.get("ev") == "run" and e.get("rwant"):
+            e["rgot"] = [e["rwant"][0] - 3, e["rwant"][1] - 1]
+            return evs
+    return None
+
+
 def poster_order(evs):
     for e in evs:
         if e.get("ev") == "run" and e.get("returned"):
